@@ -59,10 +59,7 @@ fn prebuilt_hk(n: u8, cap: usize) -> LruCache<HK, HV, BH> {
     let mut c: LruCache<HK, HV, BH> = LruCache::with_capacity_and_hasher(usize::MAX / 2, cap, BH::default());
     let mut k = 0u8;
     while k < n {
-        let u = UnhingedEntry::new(HK(k), HV(k));
-        c.current_size += u.size();
-        let e = Entry::new(u, c.seal, c.seal.get().next);
-        c.insert_untracked(e);
+        link_new(&mut c, UnhingedEntry::new(HK(k), HV(k)));
         k += 1;
     }
     c
